@@ -14,15 +14,18 @@ from vlib import core
 
 MODULES = ["TLVerif.Props.C42"]
 THEOREMS = ["TLVerif.Props.C42." + t for t in [
-    "code_shape", "admit_within_size", "admit_within_size_history", "cur_accounting", "nonforced_never_pushes_above", "cur_bounded_without_force",
-    "no_lost_wakeup_fails_at", "no_lost_wakeup_full_fails", "hanging_history_state",
-    "no_lost_wakeup_step_partial", "zero_gap_exact", "no_lost_wakeup_partial", "no_lost_wakeup_positive", "no_lost_wakeup_fixed", "fixed_differs_only_in_gap",
+    "code_shape", "admit_within_size", "admit_within_size_history", "cur_accounting", "nonforced_never_pushes_above",
+    "cur_bounded_without_force",
+    "no_lost_wakeup", "no_lost_wakeup_step", "over_release_guard_needed",
+    "no_lost_wakeup_fails_with_strict_gt", "strict_gt_history_now_fine", "strict_gt_hanging_state", "strict_gt_gap_breaks",
+    "strict_gt_differs_only_in_gap",
     "release_restores", "setSize_restores", "release_admits_front", "setSize_admits_front", "cancel_preserves",
     "cancel_not_admitted", "failed_acquire_unchanged", "reachable_wf", "acquire_returns_once",
     "queue_in_arrival_order", "fifo_admission", "fifo_history", "queue_conservation", "waitEmpty_idle_neutral", "no_overflow_bound"]]
 
-# the concrete failing case line of the known finding (known_findings.d/C42.json)
-KNOWN_ZERO_GAP = "sema.h 1 t1,a1,a0,c0"
+# the case line of the lost wake-up this check found in the code before repository commit 616a0ec3 (strict `>` in the
+# cancellation branch; recorded as fixed); always run, so that a regression is reported with this input
+ZERO_GAP_LINE = "sema.h 1 t1,a1,a0,c0"
 
 HERE = os.path.dirname(os.path.abspath(__file__))
 ROOT = os.path.dirname(HERE)
@@ -33,7 +36,7 @@ ROOT = os.path.dirname(HERE)
 # statement (admission bound, accounting, FIFO prefix, no fitting first waiter asleep), not from the model.
 # State: (size, cur, queue=((ticket, weight),...), next_ticket, tainted)
 #   tainted = a fitting first waiter is currently asleep for an already reported / excused reason
-#             (over-release panic = documented misuse; zero-weight cancellation gap = known finding).
+#             (over-release panic = documented misuse).
 
 class Oracle:
     def __init__(self):
@@ -50,7 +53,7 @@ class Oracle:
 
     @staticmethod
     def _step(st, tok, word):
-        """-> (new_state or None, [(kind, text)])   kind in {'fail', 'zero-gap'}"""
+        """-> (new_state or None, [(kind, text)])   kind is 'fail'"""
         size, cur, queue, nxt, tainted = st
         fails = []
         p = word.split(":")
@@ -161,8 +164,8 @@ class Oracle:
             elif tainted and not restoring:
                 pass  # still the same excused situation
             elif c == "c" and cancelled_front and size2 == cur2 and q2[0] == 0 and not k:
-                fails.append(("zero-gap", "first waiter (weight 0) fits (size=cur=%d) but was not woken when the front "
-                              "waiter was cancelled" % cur2))
+                fails.append(("fail", "lost wake-up after %s: first waiter (weight 0) fits (size=cur=%d) but was not woken when "
+                              "the front waiter was cancelled" % (tok, cur2)))
             else:
                 fails.append(("fail", "lost wake-up after %s: first waiter of weight %d fits into size-cur=%d and is asleep"
                               % (tok, q2[0], size2 - cur2)))
@@ -507,14 +510,14 @@ def run(c):
                   "container/list is a FIFO list; closing `ready` wakes exactly that waiter; Go channel/select semantics"]
     c.assumptions += ["no int64 overflow of size/cur/weights (the model uses mathematical integers; theorem "
                       "no_overflow_bound bounds |cur| by the sum of the arguments; generated weights stay below 2^41)",
-                      "Release of more than is held is the documented misuse (panics): the no-lost-wakeup theorems "
-                      "exclude exactly that step, the oracle excuses the sleepers it leaves until the next Release/SetSize",
+                      "Release of more than is held is the documented misuse (panics): the no-lost-wakeup theorem "
+                      "excludes exactly that step (over_release_guard_needed shows it must), the oracle excuses the sleepers it leaves until the next Release/SetSize",
                       "the order in which waiters admitted by ONE notifyWaiters call return is not observable; the "
                       "oracle checks that the admitted set is a prefix of the queue",
                       "concurrent -race mixes are search only (not reproducible from the seed)"]
 
     orc = Oracle()
-    stats = {"known": 0, "lines": 0}
+    stats = {"lines": 0}
 
     def process(name, lines, procs="1"):
         """tie + oracle on one batch (batches keep memory flat in the thorough tier).  The sequential driver needs no
@@ -530,12 +533,7 @@ def run(c):
                     c.oracle_fail(l, "harness did not survive the history (%s)" % a, l)
                     continue
                 for kind, text in eval_line(orc, l, a):
-                    if kind == "zero-gap":
-                        stats["known"] += 1
-                        if stats["known"] <= 20 or l == KNOWN_ZERO_GAP:
-                            c.oracle_fail(KNOWN_ZERO_GAP, text, l)
-                    else:
-                        c.oracle_fail(l, text, l)
+                    c.oracle_fail(l, text, l)
 
     lines = []
     if c.replay:
@@ -544,8 +542,8 @@ def run(c):
                 lines.append(f["input"])
         for t in c.replay.get("broken_ties", []):
             lines.append(t["line"])
-    # fixed cases: the known finding and its permanent-hang variant, documented examples, malformed stream
-    lines += [KNOWN_ZERO_GAP, "sema.h 1 t1,a1,a0,s0,r1,c0,t0,r0", "sema.h 2 a-1,x3,x1,a5,c1,c3,r1,f2,s-1",
+    # fixed cases: the (repaired) zero-weight cancellation gap and its permanent-hang variant, documented examples, malformed stream
+    lines += [ZERO_GAP_LINE, "sema.h 1 t1,a1,a0,s0,r1,c0,t0,r0", "sema.h 2 a-1,x3,x1,a5,c1,c3,r1,f2,s-1",
               "sema.h 1 a1,r2,a1,a1,o,r0", "sema.h 3 f5,a1,a2,s9,c0,c1,r8", "sema.h 0 a0,t0,a1,s1,c0",
               "sema.h x a1", "sema.h 1 q1", "sema.h 1", "sema.h 1 a1,,r1", "sema.h 1 c-1", "sema.h 1 a", "sema.q 1 a1",
               "sema.h 1 c1x", "sema.h 1 a1 r1", "sema.h 9223372036854775808 a1", "sema.h +1 a+1,c0,c2147483647",
@@ -557,7 +555,7 @@ def run(c):
     if c.thorough:
         nrand, nlong = 100000, 10000
     else:
-        nrand, nlong = 20000, 2000
+        nrand, nlong = 6000, 500
     for i in range(nrand):
         lines.append(random_history(rng, rng.range(4, 24), rng.range(0, 5), rng.range(1, 5), rng.chance(1, 2), rng.chance(1, 3)))
     for i in range(nlong):
@@ -578,20 +576,30 @@ def run(c):
                 ("cover7", lambda: transition_cover(sizes, 7, FULL + NEG))]
         desc = "[(full 25 ops w<=3, L=4, sizes 0..3), (mid 14 ops, L=5, size 2), (core 8 ops, L=6, sizes 1..2), (12 ops incl. WaitEmpty, L=5, sizes 1..2)]; transition cover depth 7"
     else:
-        plan = [("exh-full3", lambda: exhaustive(sizes, 3, FULL, 3)), ("exh-neg2", lambda: exhaustive(sizes, 2, FULL + NEG, 2)),
-                ("exh-mid4", lambda: exhaustive([1, 2], 4, MID, 3)), ("exh-core5", lambda: exhaustive([1, 2], 5, CORE, 3)),
-                ("exh-tiny6", lambda: exhaustive([2], 6, TINY, 2)), ("exh-we4", lambda: exhaustive([0, 1, 2], 4, WMID, 3)), ("cover5", lambda: transition_cover(sizes, 5, FULL + NEG))]
-        desc = "[(full 25 ops w<=3, L=3, sizes 0..3), (mid 14 ops, L=4, sizes 1..2), (core 8 ops, L=5, sizes 1..2), (tiny 5 ops, L=6, size 2), (12 ops incl. WaitEmpty, L=4, sizes 0..2)]; transition cover depth 5"
-    for name, gen in plan:
-        ls = gen()
-        c.count("lines:" + name, len(ls))
-        process(name, ls)
-        del ls
-    c.count("oracle:zero-gap-occurrences", stats["known"])
+        plan = [("exh-full3", lambda: exhaustive([1, 2], 3, FULL, 3)), ("exh-neg2", lambda: exhaustive(sizes, 2, FULL + NEG, 2)),
+                ("exh-mid3", lambda: exhaustive(sizes, 3, MID, 3)), ("exh-core4", lambda: exhaustive([1, 2, 3], 4, CORE, 3)),
+                ("exh-tiny5", lambda: exhaustive([1, 2], 5, TINY, 2)), ("exh-we3", lambda: exhaustive([0, 1, 2], 3, WMID, 3)),
+                ("cover4", lambda: transition_cover(sizes, 4, FULL + NEG))]
+        desc = ("[(full 25 ops w<=3, L=3, sizes 1..2), (full+negative, L=2, sizes 0..3), (mid 14 ops, L=3, sizes 0..3), (core 8 ops, L=4, "
+                "sizes 1..3), (tiny 5 ops, L=5, sizes 1..2), (12 ops incl. WaitEmpty, L=3, sizes 0..2)]; transition cover depth 4")
+    if c.thorough:
+        for name, gen in plan:
+            ls = gen()
+            c.count("lines:" + name, len(ls))
+            process(name, ls)
+            del ls
+    else:
+        # quick tier: one tie for all exhaustive families (process start-up dominates on a loaded machine)
+        allq = []
+        for name, gen in plan:
+            ls = gen()
+            c.count("lines:" + name, len(ls))
+            allq += ls
+        process("exhaustive", allq)
 
     # ---------------- concurrent mixes under the race detector (search only)
     soak = []
-    nsoak = 96 if c.thorough else 24
+    nsoak = 96 if c.thorough else 12
     for i in range(nsoak):
         mode = [0, 4, 7, 23, 3, 31, 12, 5, 36, 44, 32, 15][i % 12]
         size = rng.range(1, 6)
@@ -609,8 +617,6 @@ def run(c):
         if "DATA RACE" in err:
             c.oracle_fail(l, "data race reported by the race detector: " + " | ".join(
                 x.strip() for x in err.split("\n") if "semaphore.go" in x)[:300], l)
-        elif out == "fail lost-wakeup-zero":
-            c.oracle_fail(KNOWN_ZERO_GAP, "concurrent mix: weight-0 first waiter fits (size=cur) and is asleep", l)
         elif out != "ok":
             c.oracle_fail(l, "concurrent mix: " + (out or ("no output, rc=%d %s" % (rc, err[-200:]))), l)
 
